@@ -634,7 +634,7 @@ def shim(names):
                         yield from kids(c)
 
             def store(cls, wcls, canvas):
-                if canvas.cacheable and getattr(canvas, "depends_on", None) is None:
+                if canvas.cacheable:
                     for c in kids(canvas):
                         if not any(r() is c for r in cls._widgets.get(c.widget_info[0], {}).values()):
                             return None
@@ -661,6 +661,14 @@ def shim(names):
                 orig_sa(self, attlist, hatt, satt)
                 self._invalidate()
             patch(urwid.BarGraph, "set_segment_attributes", set_segment_attributes)
+        if "gridflow-pack-stale-display-widget" in names:
+            orig_pack = urwid.GridFlow.__dict__["pack"]
+
+            def gf_pack(self, size=(), focus=False):
+                if size:
+                    self.get_display_widget(size)
+                return orig_pack(self, size, focus)
+            patch(urwid.GridFlow, "pack", gf_pack)
         if "pile-hidden-child" in names:
             pile_fn = urwid.Pile.render.original_fn
 
@@ -691,7 +699,8 @@ def shim(names):
 
 ROOT_CAUSES = [["edit-inherits-focus-blind-text-cache"], ["store-checks-widget-not-canvas"], ["pile-hidden-child"],
                ["columns-hidden-child"], ["listbox-set-focus-valign-no-invalidate"],
-               ["graphvscale-set-scale-no-invalidate"], ["bargraph-set-segment-attributes-no-invalidate"]]
+               ["graphvscale-set-scale-no-invalidate"], ["bargraph-set-segment-attributes-no-invalidate"],
+               ["gridflow-pack-stale-display-widget"]]
 
 
 def run_real(case):
